@@ -45,6 +45,16 @@ model, map of another hyper-parameter), like an attribute of a different density
 like a catalogue graph.  Oracle unchanged: scipy log-density of the complete assignment with the parameter values computed
 by the harness from its own copy of the maps (the number is the same on every route when a name is mis-resolved, so the
 differential oracle is blind here).
+
+BayesianProblem route (cells with "route": "BayesianProblem"): cuqi.problem.BayesianProblem is one more way of fixing
+variables in one step or several - data given to the constructor, further data through set_data calls on the SAME live
+problem.  For every catalogue graph and every fixed set, every grouping of the fixed set into steps (ordered set partition)
+is realised twice (first block in the constructor / constructor without data and every block through set_data) x two keyword
+orders; after EVERY step the problem's target must be the same kind of object over the same variables as the direct route
+gives for the same grouping (fresh joint, one keyword conditioning call per block) and evaluate to the reference joint
+log-density; where the target is a Posterior, problem.posterior / .likelihood / .prior must give log-likelihood + log-prior +
+contribution of every fixed variable.  A refused step is a verdict whenever the target is still a joint and the direct route
+accepts the same step (set_data is only offered while the target is a joint: its refusal on a single-density target is accepted).
 """
 import itertools
 import numpy as np
@@ -73,7 +83,13 @@ RULE = ("cells = model graph x value catalogue; inside a cell every conditioning
         "hyper-parameter variables (generic / the attribute it enters through / a sibling attribute holding a value / a "
         "sibling attribute holding a callable / an attribute of a different density) x value catalogue: the graph is explored "
         "like a catalogue graph (all histories, call forms, factors, decomposition, reuse probe, malformed and over-specified "
-        "calls) against the scipy reference with parameters computed by the harness; signatures carry naming=<closest relation>")
+        "calls) against the scipy reference with parameters computed by the harness; signatures carry naming=<closest relation>; "
+        "BayesianProblem cells = graph x value catalogue: fixed set x grouping of the fixed set into steps (ordered set partition) "
+        "x {first block as constructor data, constructor without data + every block by set_data} x {keyword order of the graph, "
+        "reversed} on ONE live problem; after every step the target is compared with the direct route of the same grouping "
+        "(kind of object, parameter names) and with the reference joint log-density (keyword, positional, posterior / "
+        "likelihood / prior accessors, 7 malformed forms on the final target); states there = (graph, 'problem', fixed set), "
+        "traces = histories whose every step was compared; non-trivial when a history of >= 2 calls reached a single density")
 BOUND = {
     "quick": "11 graphs (G1-G5,G6a,G6b,G7,G8,G9 with <=4 variables, G10 with 5; dims<=4), 1 value catalogue (seed%3); all ordered "
              "set partitions of all variable subsets; per step modes {keyword, reversed keyword, positional prefix}; "
@@ -91,7 +107,10 @@ BOUND = {
              "sqrtcov,sqrtprec}), S (one hyper-parameter in two densities), M (two hyper-parameters in one density), C (scalar "
              "chain, multi-argument callable) x EVERY assignment of distinct names from {generic} + {attributes of all densities "
              "of the joint but the variable's own prior} except the all-generic one; 4-variable template Q (two hyper-parameters, "
-             "two densities) with the two assignments in which both names are attributes (own/own, crossed); 75 cells",
+             "two densities) with the two assignments in which both names are attributes (own/own, crossed); 75 cells; "
+             "BayesianProblem route: the 11 graphs x every fixed set (incl. empty and complete) x groupings {graphs with <=4 "
+             "variables: ALL ordered set partitions; G10: one step, every two-step partition, one variable per step in graph "
+             "order and reversed} x {constructor+set_data, set_data only} x 2 keyword orders; every prefix state evaluated",
     "thorough": "same 10 graphs x all 3 value catalogues; per step modes {every keyword order, positional prefix, "
                 "first-variable positional + rest keyword}; plus the 5-variable graph G10 x 3 catalogues with the "
                 "quick tier's step modes; the over-specification alphabet of the quick tier on every graph x catalogue; "
@@ -100,7 +119,9 @@ BOUND = {
                 "extreme stage-1 histories; G10: the quick plan; every graph: three stages (shape C reduced by {one step, one "
                 "variable per step}, then shapes A and D on top); stage-2/3 step modes are the quick tier's; "
                 "naming: all templates incl. Q x every name assignment incl. the all-generic control x 3 catalogues (306 cells), "
-                "per step modes of the thorough tier",
+                "per step modes of the thorough tier; "
+                "BayesianProblem route: all 11 graphs x 3 catalogues x ALL ordered set partitions of every fixed set x 2 "
+                "realisations x 2 keyword orders; also inside every naming cell (all ordered partitions of the 3-4 variables)",
 }
 ASSUMPTIONS = [
     "one probe assignment per value catalogue (values dyadic, admissible: positive hyper-parameters, Beta in (0,1), "
@@ -134,6 +155,13 @@ ASSUMPTIONS = [
     "names of attributes of densities outside the joint, of non-parameter attributes (geometry, name) and of python "
     "keywords are not covered; every callable of a naming cell is a non-identity map written as source text for the "
     "library and independently as a harness function for the reference",
+    "BayesianProblem route: the state is observed at problem._target (the class has no public accessor for a target that is "
+    "not a Posterior) and through the public posterior / likelihood / prior properties; set_data takes keywords only, so there "
+    "is no positional passing mode on this route; set_data on a problem whose target is already a single density (Posterior / "
+    "Distribution) is refused by design and accepted as such (an accepted call is judged like any other step); a refusal that "
+    "the direct route of the same grouping shares is not judged here (explore() reports it); .posterior on a non-Posterior "
+    "target may refuse; the solver / sampler methods of the class (MAP, ML, sample_posterior, UQ) are not part of C01; the "
+    "route is enumerated on catalogue graphs (both tiers) and naming graphs (thorough), not on nested graphs",
 ]
 
 RTOL = 1e-9
@@ -272,13 +300,13 @@ def ordered_partitions(F):
                 yield (S,) + tail
 
 
-def problem_partitions(F, tier):
+def problem_partitions(F, plan):
     """Groupings of the fixed set F into conditioning steps of the BayesianProblem route.
 
-    thorough: every ordered set partition; quick: the coarsest one (one step), EVERY two-step partition (first block = every
-    non-empty proper subset) and the finest one (one variable per step) in the graph's order and in the reversed order."""
+    plan "all": every ordered set partition; plan "reduced": the coarsest one (one step), EVERY two-step partition (first
+    block = every non-empty proper subset) and the finest one (one variable per step) in the graph's order and reversed."""
     F = tuple(F)
-    if tier != "quick" or len(F) <= 1:
+    if plan == "all" or len(F) <= 1:
         return list(ordered_partitions(F))
     out = [(F,)]
     for r in range(1, len(F)):
@@ -775,15 +803,15 @@ class Explorer:
                                    "stacked view conditioned (positional %s + keyword %s)" % (sn[:p], dup), False)
 
     # -- BayesianProblem route ---------------------------------------------------------------------
-    def direct(self, fixed):
-        """What the DIRECT route gives for this fixed set (fresh joint conditioned in one keyword step): kind of the
-        reduced object and its parameter names; None when the direct route refuses (judged by explore())."""
-        key = frozenset(fixed)
+    def direct(self, blocks):
+        """What the DIRECT route gives for the same grouping (fresh joint, one keyword conditioning call per block, same
+        keyword order): kind of the reduced object and its parameter names; None when the direct route refuses somewhere
+        (judged by explore())."""
+        key = tuple(tuple(B) for B in blocks if len(B))
         if key not in self.direct_cache:
-            F = tuple(n for n in self.g.free if n in key)
             info = None
             try:
-                _o, err = self.replay((("kw", F),) if F else ())
+                _o, err = self.replay(tuple(("kw", B) for B in key))
                 if err is None:
                     info = {"branch": branch_of(_o), "names": list(_o.get_parameter_names())}
             except Exception:  # noqa
@@ -797,9 +825,10 @@ class Explorer:
         {first block in the constructor, constructor without data and every block through set_data} x {keyword order of the
         graph, reversed}.  Every state on the way is evaluated with the oracle of every other route."""
         free = list(self.g.free)
+        plan = "all" if self.tier != "quick" or len(free) <= 4 else "reduced"
         for r in range(0, len(free) + 1):
             for F in itertools.combinations(free, r):
-                for P in problem_partitions(F, self.tier):
+                for P in problem_partitions(F, plan):
                     reals = ("ctor", "set_data") if P else ("ctor",)
                     orders = ("fwd", "rev") if any(len(B) > 1 for B in P) else ("fwd",)
                     for real in reals:
@@ -822,7 +851,7 @@ class Explorer:
         try:
             _bp = cuqi.problem.BayesianProblem(*_dens, **_cp(self.vals, first))
         except Exception as e:  # noqa
-            if self.direct(first) is None:
+            if self.direct([first]) is None:
                 res.count("problem:refused-like-the-direct-route")
                 return
             res.refused += 1
@@ -830,12 +859,14 @@ class Explorer:
                       "conditioning the joint on the same variables directly succeeds" % (list(first), type(e).__name__, str(e)[:200]), history)
             return
         fixed = set(first)
-        ok = self.eval_problem(_bp, fixed, history, label, final=not rest)
+        done = [tuple(first)]
+        ok = self.eval_problem(_bp, fixed, done, history, label, final=not rest)
         for i, B in enumerate(rest):
             if not ok:
                 return
-            before = self.direct(fixed)
-            after = self.direct(fixed | set(B))
+            before = self.direct(done)
+            done = done + [tuple(B)]
+            after = self.direct(done)
             history = history + (("set_data", tuple(B)),)
             res.transitions += 1
             try:
@@ -854,20 +885,20 @@ class Explorer:
                               % (list(B), type(e).__name__, str(e)[:200]), history)
                 return
             fixed |= set(B)
-            ok = self.eval_problem(_bp, fixed, history, label, final=(i == len(rest) - 1))
+            ok = self.eval_problem(_bp, fixed, done, history, label, final=(i == len(rest) - 1))
         if ok:
             res.traces += 1
             if len(blocks) > 1 and res.sample is None:
                 res.sample = {"graph": self.g.gid, "route": "BayesianProblem", "history": [[m] + list(o) for m, o in history],
                               "final": branch_of(_bp._target), "reference_joint_logd": self.ref}
 
-    def eval_problem(self, _bp, fixed, history, label, final):
+    def eval_problem(self, _bp, fixed, done, history, label, final):
         """One state of the BayesianProblem route: the problem's target must be the same kind of object over the same
         variables as the direct route gives and evaluate to the reference joint log-density; where the target is a Posterior
         the problem's posterior / likelihood / prior accessors must give log-likelihood + log-prior + fixed contributions."""
         res = self.res
         route = "route=%s" % label
-        d = self.direct(fixed)
+        d = self.direct(done)
         remaining = [n for n in self.g.free if n not in fixed]
         res.state("%s|problem|%s" % (self.g.gid, ",".join(sorted(fixed))))
         try:
@@ -884,8 +915,8 @@ class Explorer:
                       % (what, remaining, " (direct conditioning gives a %s over %s)" % (d["branch"], d["names"]) if d else ""), history)
             return False
         if d is not None and bt != d["branch"]:
-            self.fail("BayesianProblem|target|wrong-type,%s" % route, "%s, but conditioning the joint directly on %s gives a %s over %s"
-                      % (what, sorted(fixed), d["branch"], d["names"]), history)
+            self.fail("BayesianProblem|target|wrong-type,%s" % route, "%s, but conditioning the joint directly in the same steps %s gives a %s over %s"
+                      % (what, [list(B) for B in done if len(B)], d["branch"], d["names"]), history)
             return False
         if len(history) > 1 and bt in ("Posterior", "Distribution"):
             self.reduced = True
@@ -1058,6 +1089,8 @@ def eval_named(cell):
     ex = Explorer(res, cell, graph=g, tag="naming=" + naming)
     ex.explore((), set())
     ex.differential()
+    if cell.get("tier", "quick") != "quick":
+        ex.explore_problem()
     res.nontrivial = ex.reduced
     return res
 
